@@ -194,6 +194,59 @@ func sideWorlds(run *lib.Run, hb *lib.Heartbeat) {
 		p.Stop()
 		origin.Close()
 	}
+	// (3) answers that arrive just as the connect timeout fires: many CONNECTs through an upstream
+	// proxy that answers 200 after the timeout give or take a few milliseconds
+	if run.Want(base + 2) {
+		run.Case(base+2, "side|upstream-answer-at-connect-timeout", nil)
+		const timeout = 30 * time.Millisecond
+		up := lib.MustOrigin("UP3", "127.0.0.1:0", nil, func(oc *lib.OConn, req *lib.Msg) lib.Action {
+			if req.Method != "CONNECT" {
+				oc.Write(lib.SimpleResponse(200, "OK", nil, []byte("ok")))
+				return lib.Continue
+			}
+			var d time.Duration
+			fmt.Sscanf(req.Get1("X-Delay-Us"), "%d", (*int64)(&d))
+			time.Sleep(d * time.Microsecond)
+			oc.Write([]byte("HTTP/1.1 200 OK\r\n\r\n"))
+			io.Copy(io.Discard, oc.C)
+			return lib.Close
+		})
+		p := lib.MustProxy(lib.ProxyOpts{Cfg: func(cfg *forwarder.HTTPProxyConfig) {
+			cfg.UpstreamProxy = &url.URL{Scheme: "http", Host: up.Addr}
+			cfg.ConnectTimeout = timeout
+		}})
+		n := run.N(900, 6000)
+		var wg sync.WaitGroup
+		jobs := make(chan int)
+		for w := 0; w < 24; w++ {
+			wg.Add(1)
+			go func() {
+				defer wg.Done()
+				for i := range jobs {
+					st, err := lib.Dial(p.Addr)
+					if err != nil {
+						continue
+					}
+					// delays from 6 ms before to 6 ms after the timeout, in 20 us steps
+					delay := int64(timeout/time.Microsecond) - 6000 + int64(i%600)*20
+					fmt.Fprintf(st.C, "CONNECT edge%d.test:443 HTTP/1.1\r\nHost: edge%d.test:443\r\nX-Delay-Us: %d\r\n\r\n", i, i, delay)
+					if m, pst, _ := st.ReadResponse("CONNECT", 8*time.Second); pst == lib.POK && (m.Status == 200 || m.Status/100 == 5) {
+						run.Count("side_edge_connects", 1)
+					}
+					st.Close()
+				}
+			}()
+		}
+		for i := 0; i < n; i++ {
+			jobs <- i
+		}
+		close(jobs)
+		wg.Wait()
+		quiesce(p, base+2, "upstream-answer-at-connect-timeout")
+		p.Stop()
+		up.Close()
+		run.Floor("side_edge_connects", int64(n*8/10))
+	}
 	run.Floor("side_quiescent_points", 4)
 	run.Floor("side_connects_checked", 30)
 	run.Floor("side_pp_closed_by_proxy", 20)
